@@ -108,7 +108,22 @@ func translate(s shape, v string, km *xlate.Mapper) outcome {
 			}
 		}
 	}
-	o := xlate.Text(text, km.KindMapper, s.params(v))
+	var o *xlate.Outcome
+	if s.Anonymous {
+		if q, err := cyq.Parse(text); err != nil {
+			o = &xlate.Outcome{ParseErr: err.Error()}
+		} else {
+			xlate.SetParameterValues(q, s.params(v))
+			_ = walk.Cypher(q, walk.NewSimpleVisitor[cypher.SyntaxNode](func(node cypher.SyntaxNode, _ walk.VisitorHandler) {
+				if p, ok := node.(*cypher.Parameter); ok {
+					p.Symbol = ""
+				}
+			}))
+			o = xlate.AST(q, km.KindMapper, nil)
+		}
+	} else {
+		o = xlate.Text(text, km.KindMapper, s.params(v))
+	}
 	out := outcome{kind: o.Kind(), err: o.Err + o.ParseErr + o.Panic, sql: o.SQL, params: o.Params}
 	if o.OK() {
 		flatten(o.SQL, o.Params, "", 0, &out.flat)
@@ -390,6 +405,14 @@ func main() {
 			bound++
 			perPos[s.Position]["bound-as-parameter"]++
 		case "absent":
+			if strings.HasPrefix(s.Position, "parameter-value") && v != "" {
+				// the query reads the parameter, so its value has to reach PostgreSQL: bound, or as a literal
+				class := s.Position + ":value-does-not-reach-sql"
+				hist[class]++
+				perPos[s.Position]["VIOLATION"]++
+				run.Report(core.Violation{Class: class, Summary: fmt.Sprintf("shape %s, value %q: the parameter's value is neither bound nor written into the statement", s.Name, trunc(v)), Artefact: artefact{Shape: s.Name, Value: v}})
+				break
+			}
 			absent++
 			perPos[s.Position]["value-does-not-reach-sql"]++
 		default:
